@@ -116,15 +116,15 @@ def gen_module(ki, threads, ops, cpufam, nodefam, cpuflags, memflags, pols, lens
     return "---- MODULE MC_Bind_gen ----\nEXTENDS MC_Bind\n" + "\n".join("%s == %s" % x for x in d) + "\n====\n"
 
 
-def gen_cfg(ki, maxlen, nstripes, stripe):
+def gen_cfg(ki, onlyinit):
     subst = "\n".join("  %s <- G%s" % (c, c) for c in ["CS", "CC", "CA", "NS", "NC", "NA", "NodesC", "Hooks", "KAllowed", "KMems", "ThreadsC",
                                                         "Ops", "CpuFam", "NodeFam", "CpuFlagsC", "MemFlagsC", "Pols", "Lens", "LoadComps"])
-    return ("SPECIFICATION Spec\nCONSTANTS\n  TS = %s\n%s\n  MaxLen = %d\n  NStripes = %d\n  Stripe = %d\n"
-            "VIEW View\nINVARIANTS SyscallsLegal ForeignInert AffLegal EinvalEarly\nACTION_CONSTRAINT EmitEdge\nCHECK_DEADLOCK FALSE\n"
-            % ("TRUE" if ki.ts else "FALSE", subst, maxlen, nstripes, stripe))
+    return ("SPECIFICATION Spec\nCONSTANTS\n  TS = %s\n%s\n  OnlyInit = %s\n"
+            "VIEW View\nINVARIANTS TypeOK ForeignInert AffLegal EmitInit\nACTION_CONSTRAINT EmitEdge\nCHECK_DEADLOCK FALSE\n"
+            % ("TRUE" if ki.ts else "FALSE", subst, "TRUE" if onlyinit else "FALSE"))
 
 
-# ---------------------------------------------------------------- TLC history -> behaviour text
+# ---------------------------------------------------------------- TLC transitions -> behaviour text
 def call_line(o):
     op, flags, s, pol, tgt, ln = o
     tok = NODE_TOK if (op in MEM_OPS and (flags >= 0 and (flags // 32) % 2 == 1)) else CPU_TOK
@@ -134,6 +134,79 @@ def call_line(o):
 
 def beh_text(ki, thr, hist):
     return "\n".join([ki.reset_line(thr)] + [call_line(o) for o in hist]) + "\n"
+
+
+PRINTED = None
+
+
+def printed(out, tag):
+    """payloads of  <<"TAG", "json">>  printed by PrintT (TLC may wrap the tuple over several lines)"""
+    import re
+    for m in re.finditer(r'<<\s*"%s",\s*"((?:[^"\\]|\\.)*)"\s*>>' % tag, out):
+        yield json.loads(json.loads('"' + m.group(1) + '"'))
+
+
+def tours(init, edges, frac, chunk, rng):
+    """Transition tours: histories of the model (paths of its state graph starting in the initial state) that together
+    take every selected transition once.  edges = [(src, dst, call)]; a fraction `frac` of them is selected."""
+    seen, uniq = set(), []
+    for s, d, c in edges:
+        k = (s, json.dumps(c))
+        if k not in seen:
+            seen.add(k)
+            uniq.append((s, d, c))
+    adj, todo, remaining = {}, {}, 0
+    for s, d, c in uniq:
+        adj.setdefault(s, {}).setdefault(d, c)
+        if frac >= 1 or rng.random() < frac:
+            todo.setdefault(s, []).append((c, d))
+            remaining += 1
+    for s in todo:
+        todo[s].reverse()
+
+    def route(src):
+        prev, queue = {src: None}, [src]
+        while queue:
+            nxt = []
+            for u in queue:
+                for v, c in adj.get(u, {}).items():
+                    if v in prev:
+                        continue
+                    prev[v] = (u, c)
+                    if todo.get(v):
+                        path = []
+                        while prev[v] is not None:
+                            u2, c2 = prev[v]
+                            path.append((c2, v))
+                            v = u2
+                        return path[::-1]
+                    nxt.append(v)
+            queue = nxt
+        return None
+    res, cur, beh = [], init, []
+    while remaining:
+        if todo.get(cur):
+            c, d = todo[cur].pop()
+            beh.append(c)
+            cur = d
+            remaining -= 1
+        else:
+            path = route(cur)
+            if path is None:
+                if cur == init and not beh:
+                    break                      # transitions out of reach (cannot happen for a BFS-complete graph)
+                res.append(beh)
+                cur, beh = init, []
+                continue
+            for c, d in path:
+                beh.append(c)
+                cur = d
+        if len(beh) >= chunk:
+            res.append(beh)
+            cur, beh = init, []
+    if beh:
+        res.append(beh)
+    return res, len(uniq), sum(len(b) for b in res)
 
 
 def run(ctx, replay=None):
@@ -178,13 +251,14 @@ def run(ctx, replay=None):
         ch = chosen_native if kind == "native" else sorted(ranges_to_set(ev["cs"]))[:4]
         kinds.append(KindInfo(name, kind, desc, flag, env, ev, ch))
 
-    # ---- (1) model runs
-    jobs = []   # (tag, ki, thr, module text, cfg text)
+    # ---- (1) model runs: job = (tag, ki, thr, module text, cfg text, fraction of transitions toured, chunk)
+    jobs = []
     allpols = [-1, 0, 1, 2, 3, 4, 5, 6]
     memflags_q = [0, 1, 2, 3, 4, 8, 16, 32, 33, 34, 36, 40, 44, 63, 64, 96, 1 << 20]
     memflags_t = list(range(0, 128)) + [1 << 20, (1 << 20) + 32]
-    cpuflags = list(range(0, 32)) + ([1 << 20, (1 << 20) + 2] if thorough else [])
+    cpuflags = list(range(0, 32)) + [1 << 20, (1 << 20) + 2, -1]
     S = lambda *a: frozenset(a)
+    Q = (lambda q, t: t) if thorough else (lambda q, t: q)
     for ki in kinds:
         catoms, natoms = ki.cpu_atoms, ki.node_atoms
         full_c, full_n = powerset(catoms), powerset(natoms)
@@ -192,57 +266,55 @@ def run(ctx, replay=None):
         extras = [S(), S(7), S(8)] + ([S(5)] if 5 in catoms else []) + ([S(6)] if 6 in catoms else []) \
             + ([S(5, 6)] if 5 in catoms and 6 in catoms else [])
         small_c = [a | b for a in topo4 for b in extras]
-        # (A) argument validation / dispatch: every call from the initial state
-        ns_q = 1
+        # (A) argument validation / dispatch: every call of the full alphabet from the initial state
         jobs.append(("val_cpu_" + ki.name, ki, 0,
                      gen_module(ki, ["main"], CPU_SET_OPS + CPU_GET_OPS, full_c, [S()], cpuflags, [0], [0], [1], []),
-                     gen_cfg(ki, 1, ns_q, 0)))
+                     gen_cfg(ki, True), 1.0, 60))
         jobs.append(("val_mem_" + ki.name, ki, 0,
-                     gen_module(ki, ["main"], MEM_SET_OPS + MEM_GET_OPS, full_c if thorough else small_c, full_n, [0],
-                                memflags_t if thorough else memflags_q, allpols, [0, 1], []),
-                     gen_cfg(ki, 1, 4 if thorough else 2, ctx.seed % (4 if thorough else 2))))
+                     gen_module(ki, ["main"], MEM_SET_OPS + MEM_GET_OPS, Q(small_c, full_c), full_n, [0],
+                                Q(memflags_q, memflags_t), allpols, [0, 1], []),
+                     gen_cfg(ki, True), Q(0.5, 1.0), 60))
         if not ki.ts:
             continue
-        # (B) CPU round trip with a second thread: set / get / last location from every reachable affinity
+        # (B) CPU round trip with a second thread: set / get / last location from every reachable pair of affinities
         ok_c = [s for s in topo4 if s] + [frozenset(ki.CS), frozenset(ki.CC), S(), S(1, 7)] + ([S(6)] if 6 in catoms else [])
-        nst = 1 if thorough else 8
-        for stripe in (range(nst) if thorough else [ctx.seed % nst]):
-            jobs.append(("rt_cpu_%s_%d" % (ki.name, stripe), ki, 1,
-                         gen_module(ki, ["main", "helper"], CPU_SET_OPS + CPU_GET_OPS, ok_c, [S()],
-                                    [0, 1, 2, 3, 4, 5, 6, 16] if not thorough else [0, 1, 2, 3, 4, 5, 6, 8, 10, 16], [0], [0], [1], []),
-                         gen_cfg(ki, 3, nst, stripe)))
-        # (C) memory binding round trip
+        jobs.append(("rt_cpu_" + ki.name, ki, 1,
+                     gen_module(ki, ["main", "helper"], CPU_SET_OPS + CPU_GET_OPS, ok_c, [S()],
+                                Q([0, 1, 2, 3, 4, 5, 6, 16], [0, 1, 2, 3, 4, 5, 6, 8, 10, 16]), [0], [0], [1], []),
+                     gen_cfg(ki, False), Q(0.15, 1.0), 80))
+        # (C) memory binding round trip through every reachable (thread policy, buffer policy)
         ok_n = [s for s in powerset([a for a in natoms if a <= 4]) if s] + [S(), S(1, 7)]
         ok_mc = [S(1), S(3), frozenset(ki.CS), S(1, 2), S(3, 4)]
-        nst = 4 if thorough else 16
-        for stripe in (range(nst) if thorough else [ctx.seed % nst]):
-            jobs.append(("rt_mem_%s_%d" % (ki.name, stripe), ki, 0,
-                         gen_module(ki, ["main"], MEM_SET_OPS + MEM_GET_OPS, ok_mc, ok_n, [0],
-                                    [0, 2, 32, 34, 36, 40, 44, 33, 4], [0, 1, 2, 3, 5, 4], [1], []),
-                         gen_cfg(ki, 3, nst, stripe)))
-        # (D) hwloc_topology_load() from every binding of the calling thread
+        jobs.append(("rt_mem_" + ki.name, ki, 0,
+                     gen_module(ki, ["main"], MEM_SET_OPS + MEM_GET_OPS, ok_mc, ok_n, [0],
+                                [0, 2, 32, 34, 36, 40, 44, 33, 4], [0, 1, 2, 3, 5, 4], [1], []),
+                     gen_cfg(ki, False), Q(0.3, 1.0), 80))
+        # (D) hwloc_topology_load() (default components, x86 only) from every binding of the calling thread
         if ki.name == "native":
             for thr in (0, 1):
                 jobs.append(("load_%s_%d" % (ki.name, thr), ki, thr,
-                             gen_module(ki, ["main", "helper"] if thr else ["main"], ["set_cpubind", "set_thread_cpubind", "load"],
-                                        [s for s in topo4 if s], [S()], [2], [0], [0], [1], ["default", "x86"]),
-                             gen_cfg(ki, 2, 1, 0)))
+                             gen_module(ki, ["main", "helper"] if thr else ["main"], ["set_cpubind", "load"],
+                                        [s for s in topo4 if s], [S()], [2], [0], [0], [1], Q(["x86"] if thr else ["default", "x86"], ["default", "x86"])),
+                             gen_cfg(ki, False), 1.0, 40))
 
     behs, meta = [], []
 
     def one(job):
-        tag, ki, thr, mod, cfgt = job
+        tag, ki, thr, mod, cfgt, frac, chunk = job
         out, st = ctx.tlc_mc("MC_Bind_gen", cfgt, tag=tag, extra_modules=[("MC_Bind_gen.tla", mod)], workers=2, heap="3g", timeout=1500)
         if st["error"] or st["rc"] != 0:
             raise vlib.Infra("model check %s failed (model-level, not a violation): %s\n%s" % (tag, st["error"], out[-2500:]))
-        return [beh_text(ki, thr, h) for h in vlib.tlc_printed(out, "EDGE")]
+        init = next((tuple(x) for x in printed(out, "INIT")), None)
+        edges = [(tuple(e["s"]), tuple(e["d"]), e["c"]) for e in printed(out, "EDGE")]
+        if init is None or not edges:
+            raise vlib.Infra("model run %s emitted no transition" % tag)
+        hs, nuniq, ncalls = tours(init, edges, frac, chunk, random.Random(ctx.seed * 7919 + len(tag)))
+        return [beh_text(ki, thr, h) for h in hs], (tag, st["distinct"], nuniq, len(hs), ncalls)
 
     with cf.ThreadPoolExecutor(max_workers=max(1, vlib.NCPU // 2)) as ex:
-        for job, res in zip(jobs, ex.map(one, jobs)):
-            if not res and not job[0].startswith(("rt_", "val_mem")):
-                raise vlib.Infra("model run %s emitted no behaviour" % job[0])
+        for job, (res, m) in zip(jobs, ex.map(one, jobs)):
             behs += res
-            meta.append((job[0], len(res)))
+            meta.append(m)
 
     # group behaviours with the same topology so that the recorder's topology cache is effective (order is deterministic)
     ctx.samples = [behs[0], behs[len(behs) // 2], behs[-1]]
@@ -253,11 +325,12 @@ def run(ctx, replay=None):
     rejs = ctx.validate("TraceBind", tf, cfg=vcfg)
     ctx.handle_rejections(rejs, behs, replay_fn)
     return ctx.finish(
-        rule="behaviours = one per transition of the bounded binding model (every entry point x flag word x set over the atoms "
-             "{4 chosen PUs, rest, disallowed, outside, infinite tail} x policy from the initial state of each of %d topology kinds; "
-             "histories of <= 3 calls through every reachable pair of thread affinities / memory policies for the kinds with OS hooks; "
-             "hwloc_topology_load from every binding); each was replayed on the rebuilt library with the system calls intercepted, "
-             "and validated by TLC against Bind!Rel; a behaviour is non-trivial when it contains at least one call" % len(kinds),
+        rule="behaviours = transition tours of the bounded binding model: every (thorough) or a seeded fraction (quick) of the transitions "
+             "TLC enumerated is taken once - every entry point x flag word x set over the atoms {4 chosen PUs, rest, disallowed, outside, "
+             "infinite tail} x policy from the initial state of each of %d topology kinds; every call of a smaller alphabet from every "
+             "reachable pair of thread affinities / memory policies for the kinds with OS hooks; hwloc_topology_load from every binding; "
+             "each tour was replayed on the rebuilt library with the system calls intercepted and validated by TLC against Bind!Rel; "
+             "a behaviour is non-trivial when it contains at least one call" % len(kinds),
         assumptions=["Linux x86_64 sandbox: the kernel's own behaviour (sched_setaffinity/set_mempolicy semantics) is trusted and read back with raw system calls",
                      "memory binding on the live system is limited to the NUMA nodes the sandbox has; kernel refusals are accepted where the property leaves them open",
                      "ENOMEM paths and hwloc_topology_set_pid() are not explored"],
